@@ -2,6 +2,7 @@
 mod c06;
 mod c08;
 mod c09;
+mod c19;
 mod codec;
 mod engine;
 mod findings;
@@ -93,6 +94,7 @@ fn meta(prop: &str) -> Meta {
     "C15" => Meta { level: "model_checking", rule: "states = SourceMap values and JSON documents enumerated; non-trivial = value with >= 2 table entries / any document", assumptions: &["string alphabet of 12 strings covering quotes, backslash, control characters, U+2028/9, astral", "independent parser: serde_json"], workers: 16 },
     "C17" => Meta { level: "model_checking", rule: "states = inputs enumerated (decoder strings, byte strings, edited documents, wild source trees), each run in the overflow-checked and in the release profile; non-trivial = input that parses / decodes to >= 2 segments / composite tree", assumptions: &["bounded lengths (coverage.bounds)", "hang detection: per-worker wall limit", "dependencies (simd-json) are part of the subject"], workers: 16 },
     "C18" => Meta { level: "model_checking", rule: "states = scheduling decision nodes visited; evaluations = complete schedules executed (each compared with the single-threaded answers); non-trivial = schedules with >= 1 preemption", assumptions: &["interleavings at the granularity of the guarded hook points placed before every shared-state access of ReplaceSource, CachedSource and the raw sources, and in callbacks of a user-defined child", "sequential consistency (the code uses SeqCst atomics and locks only)", "preemption bound and programs listed in coverage.bounds / coverage.notes"], workers: 16 },
+    "C19" => Meta { level: "model_checking", rule: "states/evaluations = the rope states, trees and schedules of the underlying engines, re-run with the precondition assertions armed; non-trivial as in those engines", assumptions: &["a precondition assertion sits immediately before each of the 14 unsafe operations (feature verif_hooks); every site must be reached at least once or the run is a machinery failure", "std ub_checks (debug-assertions) abort on out-of-contract unchecked indexing: second oracle", "the lifetime-extended cached map is sound iff cache entries are write-once: monitored over all C18 schedules and C10 histories", "no address sanitizer run (needs a nightly -Z flag and a rebuilt std; the installed nightly has rust-src but the 1.83 dependency cache does not build there)"], workers: 16 },
     "C11" => Meta { level: "model_checking", rule: "one case per distinct term; non-trivial = some map() has >= 2 segments", assumptions: tree_assume, workers: 16 },
     _ => panic!("unknown property {prop}"),
   }
@@ -115,6 +117,7 @@ fn run_worker(prop: &str, tier: &str, k: usize, n: usize, ctx: &mut Ctx) {
     }
     "C16" => rope_mc::worker(tier, k, n, ctx),
     "C18" => sched::worker(tier, k, n, ctx),
+    "C19" => c19::worker(tier, k, n, ctx),
     "C14" => pairs::c14_worker(tier, k, n, ctx),
     "C20" => pairs::c20_worker(tier, k, n, ctx),
     "C10" => hist::c10_worker(tier, k, n, ctx),
@@ -140,6 +143,7 @@ fn bounds(prop: &str, tier: &str) -> Value {
     }),
     "C16" => rope_mc::bounds(tier),
     "C18" => sched::bounds(tier),
+    "C19" => c19::bounds(tier),
     "C14" => pairs::c14_bounds(tier),
     "C20" => pairs::c20_bounds(tier),
     "C10" => hist::c10_bounds(tier),
@@ -181,6 +185,11 @@ fn main() {
       for n in total.notes.clone() {
         if let Some(m) = n.strip_prefix("MACHINERY: ") {
           errors.push(m.to_string());
+        }
+      }
+      if prop == "C19" {
+        for site in c19::unreached_sites(&total) {
+          errors.push(format!("unsafe site never reached by this run: {site}"));
         }
       }
       if prop == "C20" {
@@ -311,6 +320,16 @@ fn replay(prop: &str, case: &Value, ctx: &mut Ctx) {
       }
     }
     "C18" => sched::replay(ctx, case),
+    "C19" => {
+      if case.get("program").map(|p| p.is_object()).unwrap_or(false) && case.get("schedule").is_some() {
+        sched::replay(ctx, case)
+      } else if let Ok(t) = serde_json::from_value::<term::Term>(case.clone()) {
+        tree_checks::all_methods_return(ctx, &t);
+        tree_checks::cached_replay_twice(ctx, &t);
+      } else {
+        println!("rope program: {case}");
+      }
+    }
     "C13" => {
       let base: term::Term = serde_json::from_value(case["base"].clone()).expect("base");
       let variant: term::Term = serde_json::from_value(case["variant"].clone()).expect("variant");
